@@ -4,11 +4,22 @@
    is created with the sub-reference found in ITS parent's reference (never with a reloaded
    standard reference) and takes its datatype and structure from it; restating the standard entry
    changes nothing.  Creation through traversal / add_* helpers is the heap model's (C09-C12), the
-   validator's use of the reference is C04's model; MessageProfileNotFound / LegacyMessageProfile
-   and the message level are decided by the oracle of harness/c18.py. *)
+   validator's use of the reference is C04's model.
+
+   Message level (second half of this file, Model/MessageProf.v = parse_message with its
+   message_profile argument, proofs in Proofs/ProfileMsg.v): without profile the function IS
+   Model/Message.v's parse_message; a profile lacking the structure (the empty profile included) gives
+   MessageProfileNotFound, a legacy entry LegacyMessageProfile (parser and constructor); a restating profile is a no-op; the
+   message carries the profile's reference; with find_groups=True every group and every placed
+   segment of the result is a declared child of its parent's (profile) reference and was built
+   with the declared sub-reference, provided the profile does not use one group name for two
+   different references (decidable: profile_groups_ok); with find_groups=False the segments are
+   built on the STANDARD tables (C18_flat_..._refuted + the _partial statement that does hold);
+   validate() judges against the reference the message carries. *)
 From Coq Require Import List Bool NArith ZArith Init.Byte.
-From HL7 Require Import Lib.Str Model.Ec Model.Result Model.Ref Model.Tree Model.Parser Model.Leaf
-     Proofs.ProfileFacts Gen.Params.
+From HL7 Require Import Lib.Str Model.Ec Model.Result Model.Header Model.Ref Model.Tree Model.Parser Model.Leaf
+     Model.MsgTree Model.Groups Model.Message Model.MessageProf Model.Validate
+     Proofs.ProfileFacts Proofs.GroupsFacts Proofs.ProfileMsg Proofs.ProfileMsgWitness Gen.Params.
 From HL7 Require Gen.Tables_v2_5.
 Import ListNotations.
 Open Scope bs_scope.
@@ -52,3 +63,199 @@ Example C18_profile_speaks :
   | Err _ => []
   end = [Some "SI"; Some "CX"; Some "NM"].
 Proof. vm_compute. reflexivity. Qed.
+
+
+(* ====================================================================================================
+   MESSAGE LEVEL.  Vocabulary:
+     parse_message_prof_gen lib dflt lvl leafv fg prof text
+                         parse_message(text, validation_level=lvl, find_groups=fg, message_profile=prof);
+                         lib = load_library, dflt = default version, leafv = the datatype factory's
+                         to_er7 (ANY function: the theorems do not depend on it); prof : option profile,
+                         a profile = list (structure name * (PRef reference | PLegacy))
+     parse_message_prof  the same with the leaf function of Model/Message.v
+     new_message_profiled  Message(name, reference=profile)
+     declared t pr k n r   the reference pr lists a child of kind k named n whose reference is r
+     declared_tree .. pr x   x hangs under a parent whose reference is pr: a group (g, r, st, children) is a
+                         declared GRP child with the declared reference r, st is the structure of r and
+                         the children hang under r; a segment parsed WITH a reference sr was parsed from
+                         a piece of the text with sr = the declared SEG child named like the piece; a
+                         segment parsed without reference (the search found it nowhere on the way up): no
+                         statement
+     profile_groups_ok t fuel r   the group rows below r have upper-case names and one name never stands for
+                         two different references (what `parents_refs.index((name, reference))` needs)
+   ==================================================================================================== *)
+
+(* (a) no profile (None): the function of Model/Message.v, so C01/C03/C08/C15's message-level theorems are
+   theorems about this function *)
+Theorem C18_message_no_profile : forall lib dflt lvl fg text,
+  parse_message_prof lib dflt lvl fg None text = parse_message lib dflt lvl fg text.
+Proof. exact parse_message_prof_none. Qed.
+Print Assumptions C18_message_no_profile.
+
+(* (b) a profile without an entry for the structure named in MSH-9 (as written there), or a header without
+   structure: MessageProfileNotFound - before anything else is looked at (version included); in particular the
+   empty profile *)
+Theorem C18_message_profile_not_found : forall lib dflt lvl leafv fg p text e s v,
+  get_message_info (lstrip text) = Ok (e, s, v) ->
+  match s with Some n => slookup n p | None => None end = None ->
+  parse_message_prof_gen lib dflt lvl leafv fg (Some p) text = Err (HL7 EMessageProfileNotFound).
+Proof. exact parse_message_prof_not_found. Qed.
+Print Assumptions C18_message_profile_not_found.
+
+Theorem C18_message_empty_profile_not_found : forall lib dflt lvl leafv fg text e s v,
+  get_message_info (lstrip text) = Ok (e, s, v) ->
+  parse_message_prof_gen lib dflt lvl leafv fg (Some []) text = Err (HL7 EMessageProfileNotFound).
+Proof. exact parse_message_prof_empty. Qed.
+Print Assumptions C18_message_empty_profile_not_found.
+
+Theorem C18_message_legacy_profile : forall lib dflt lvl leafv fg p text e n v,
+  get_message_info (lstrip text) = Ok (e, Some n, v) -> slookup n p = Some PLegacy ->
+  parse_message_prof_gen lib dflt lvl leafv fg (Some p) text = Err (HL7 ELegacyMessageProfile).
+Proof. exact parse_message_prof_legacy. Qed.
+Print Assumptions C18_message_legacy_profile.
+
+(* the constructor indexes the profile by the upper-cased name *)
+Theorem C18_constructor_profile_not_found : forall lvl t e name p,
+  match name with Some n => slookup (upper n) p | None => None end = None ->
+  new_message_profiled lvl t e name (Some p) = Err (HL7 EMessageProfileNotFound).
+Proof. exact new_message_profiled_not_found. Qed.
+Print Assumptions C18_constructor_profile_not_found.
+
+Theorem C18_constructor_legacy_profile : forall lvl t e n p,
+  slookup (upper n) p = Some PLegacy ->
+  new_message_profiled lvl t e (Some n) (Some p) = Err (HL7 ELegacyMessageProfile).
+Proof. exact new_message_profiled_legacy. Qed.
+Print Assumptions C18_constructor_legacy_profile.
+
+(* (c) a profile whose entry for the message's structure is the reference the tables hold for it changes
+   nothing: same outcome, same tree.  Premise on the tables: the structure accepts the MSH segment the
+   constructor attaches (every shipped structure lists MSH: C18_restating_premise_v2_5 below). *)
+Theorem C18_message_restating_noop : forall lib dflt lvl leafv fg p text e n v r,
+  get_message_info (lstrip text) = Ok (e, Some n, v) ->
+  slookup n p = Some (PRef r) ->
+  (forall t, lib (match v with Some v' => v' | None => dflt end) = Some t ->
+     slookup (upper n) (t_messages t) = Some r /\
+     (forall st, parse_structure t r = Ok st -> msh_admission t lvl (upper n) st = Ok tt)) ->
+  parse_message_prof_gen lib dflt lvl leafv fg (Some p) text = parse_message_prof_gen lib dflt lvl leafv fg None text.
+Proof. exact parse_message_prof_restated. Qed.
+Print Assumptions C18_message_restating_noop.
+
+Example C18_restating_premise_v2_5 :
+  forallb (fun p : str * sref =>
+             match parse_structure Gen.Tables_v2_5.tables (snd p) with
+             | Ok st => is_ok (msh_admission Gen.Tables_v2_5.tables STRICT (fst p) st) &&
+                        is_ok (msh_admission Gen.Tables_v2_5.tables TOLERANT (fst p) st)
+             | Err _ => true
+             end) (t_messages Gen.Tables_v2_5.tables) = true.
+Proof. exact restating_premise_v2_5. Qed.
+
+(* the message carries the profile's reference (name upper-cased, structure = the structure of the profile's
+   entry) and its children are exactly what parse_segments returned for that reference (find_groups=True, with
+   the `except AttributeError` fallback) or for no reference at all (find_groups=False) *)
+Theorem C18_message_carries_profile_reference : forall lib dflt lvl leafv fg p text e n v r t m,
+  get_message_info (lstrip text) = Ok (e, Some n, v) ->
+  slookup n p = Some (PRef r) ->
+  parse_message_prof_gen lib dflt lvl leafv fg (Some p) text = Ok (t, m) -> m_name m <> None ->
+  let leaf := leafv (match v with Some v' => v' | None => dflt end) lvl e in
+  lib (match v with Some v' => v' | None => dflt end) = Some t /\
+  exists st, parse_structure t r = Ok st /\ m_name m = Some (upper n) /\ m_st m = Some st /\
+    (if fg then
+       match parse_segments_grouped t lvl e leaf r (lstrip text) with
+       | Err (Crash AttributeError) => parse_segments_flat t lvl e leaf (lstrip text)
+       | x => x
+       end
+     else parse_segments_flat t lvl e leaf (lstrip text)) = Ok (m_children m).
+Proof. exact parse_message_prof_shape. Qed.
+Print Assumptions C18_message_carries_profile_reference.
+
+(* (d) find_groups=True, the forest parse_segments builds for ANY root reference (message profile entry or
+   standard structure) *)
+Theorem C18_grouped_forest_takes_subreferences : forall t lvl e leaf root text f fuel,
+  profile_groups_ok t fuel root = true ->
+  parse_segments_grouped_trees t lvl e leaf root text = Ok f ->
+  Forall (declared_tree t str seg (take 3) (seg_of_piece t lvl e leaf) root) f.
+Proof. exact grouped_nodes_declared. Qed.
+Print Assumptions C18_grouped_forest_takes_subreferences.
+
+(* ... and at message level: the children of the parsed message are that forest *)
+Theorem C18_grouped_nodes_take_profile_subreference : forall lib dflt lvl leafv p text e n v r t m fuel,
+  get_message_info (lstrip text) = Ok (e, Some n, v) ->
+  slookup n p = Some (PRef r) ->
+  parse_message_prof_gen lib dflt lvl leafv true (Some p) text = Ok (t, m) -> m_name m <> None ->
+  profile_groups_ok t fuel r = true ->
+  let leaf := leafv (match v with Some v' => v' | None => dflt end) lvl e in
+  exists st, parse_structure t r = Ok st /\ m_st m = Some st /\
+    ((exists f, parse_segments_grouped_trees t lvl e leaf r (lstrip text) = Ok f /\
+                m_children m = map node_of f /\
+                Forall (declared_tree t str seg (take 3) (seg_of_piece t lvl e leaf) r) f)
+     \/ (parse_segments_grouped t lvl e leaf r (lstrip text) = Err (Crash AttributeError) /\
+         parse_segments_flat t lvl e leaf (lstrip text) = Ok (m_children m))).
+Proof. exact parse_message_prof_grouped_nodes. Qed.
+Print Assumptions C18_grouped_nodes_take_profile_subreference.
+
+(* a segment placed with the sub-reference sr has the structure of sr (then C18_fields_take_parent_subreference
+   hands its fields the sub-references of sr, and so on down) *)
+Theorem C18_placed_segment_structure_from_profile : forall t lvl e leaf piece sr a,
+  seg_of_piece t lvl e leaf piece (Some sr) = Ok a ->
+  valid_z_segment_name (seg_name_of (strip piece)) = false ->
+  parse_structure t sr = Ok (s_st a).
+Proof. exact placed_segment_structure. Qed.
+Print Assumptions C18_placed_segment_structure_from_profile.
+
+(* (d) find_groups=False.  What the property asks - every segment the profile's message reference declares
+   carries the declared sub-reference - is FALSE of hl7apy: parse_segments ignores `references` in that mode
+   (parser.py:155); witness: an ADT_A01 profile retyping EVN-1, Proofs/ProfileMsgWitness.v *)
+Theorem C18_flat_nodes_take_profile_subreference_refuted : ~ flat_nodes_take_profile_subreference.
+Proof. exact flat_nodes_refuted. Qed.
+Print Assumptions C18_flat_nodes_take_profile_subreference_refuted.
+
+(* what does hold: the children are the flat parse, every segment built WITHOUT reference, i.e. whatever the
+   profile is (None included) the children are those of the un-profiled parse *)
+Theorem C18_flat_children_standard_partial : forall lib dflt lvl leafv p text t m,
+  parse_message_prof_gen lib dflt lvl leafv false p text = Ok (t, m) ->
+  exists e s v, get_message_info (lstrip text) = Ok (e, s, v) /\
+    parse_segments_flat t lvl e (leafv (match v with Some v' => v' | None => dflt end) lvl e) (lstrip text)
+    = Ok (m_children m).
+Proof. exact parse_message_prof_flat_children. Qed.
+Print Assumptions C18_flat_children_standard_partial.
+
+(* (e) validate(): a message parsed with a profile is judged against the profile's entry - the rows the
+   validator walks are those of r, the table entry of the message's name does not occur; a message parsed
+   without profile is judged against the reference it carries (the table entry).  The profile reaches the
+   validator only through the reference the message carries (v_message_against has no profile argument) and,
+   below the root, through the rows of that reference. *)
+Theorem C18_validate_judges_against_profile : forall lib dflt lvl leafv fg p text e n v r t m e',
+  get_message_info (lstrip text) = Ok (e, Some n, v) ->
+  slookup n p = Some (PRef r) ->
+  parse_message_prof_gen lib dflt lvl leafv fg (Some p) text = Ok (t, m) -> m_name m <> None ->
+  Validate.valid_z_message_name (upper n) = false ->
+  validate_message_log t lvl e' m = v_message_against lvl t e' r m.
+Proof. exact validate_profiled. Qed.
+Print Assumptions C18_validate_judges_against_profile.
+
+Theorem C18_validate_judges_against_carried_reference : forall lvl t e' m n st r,
+  m_name m = Some n -> m_st m = Some st -> st_reference st = r ->
+  Validate.valid_z_message_name n = false ->
+  validate_message_log t lvl e' m = v_message_against lvl t e' r m.
+Proof. exact validate_unprofiled. Qed.
+Print Assumptions C18_validate_judges_against_carried_reference.
+
+(* non-vacuity (v2.5, ADT_A01 profile retyping EVN-1 and, inside the inline repeating PROCEDURE group, PR1-1):
+   with find_groups=True the profile speaks at both depths and in both group instances; without profile the
+   standard datatypes; with find_groups=False the standard datatypes DESPITE the profile *)
+Example C18_message_profile_speaks :
+  first_field_dts "EVN" (w_result true) = [Some "NM"] /\
+  first_field_dts "PR1" (w_result true) = [Some "ST"; Some "ST"] /\
+  match w_result true with Ok (_, m) => BS (dump_message m) | Err _ => "" end
+  = "ADT_A01:MSH EVN PID PV1 (ADT_A01_PROCEDURE PR1) (ADT_A01_PROCEDURE PR1)".
+Proof. exact profile_speaks_grouped. Qed.
+Example C18_message_standard_datatypes :
+  first_field_dts "EVN" (parse_message_prof w_lib "2.5" TOLERANT true None w_text) = [Some "ID"] /\
+  first_field_dts "PR1" (parse_message_prof w_lib "2.5" TOLERANT true None w_text) = [Some "SI"; Some "SI"].
+Proof. exact standard_datatypes. Qed.
+Example C18_message_profile_silent_flat :
+  first_field_dts "EVN" (w_result false) = [Some "ID"] /\
+  first_field_dts "PR1" (w_result false) = [Some "SI"; Some "SI"].
+Proof. exact profile_silent_flat. Qed.
+Example C18_witness_profile_groups_ok : profile_groups_ok w_tables 12 w_root = true.
+Proof. exact w_groups_ok. Qed.
